@@ -1,8 +1,10 @@
 /-
   Model `Res`: the reservation / barrier protocol of worker.go (repaired tree):
 
-    reserve()            for { c := cur.Load(); if c >= conc.Load() { return false }; if cur.CAS(c, c+1) { break } }
-                         if s := status.Load(); s == paused || s == stopped { release(); return false }
+    reserve()            for { c := cur.Load(); if c >= conc.Load() { return false }; if cur.CAS(c, c+1) { taken = c+1; break } }
+                         if s := status.Load(); s == paused || s == stopped || taken > conc.Load() { release(); return false }
+                         (`||` short-circuits: the limit is loaded a second time only when the status is neither
+                          paused nor stopped)
     release()            releaseWaiters(cur.Add(^uint32(0)))
     processNextJob()     reserve → next/dequeue/claim (any failure: release) → Node.Send(job)
     runner (initPoolNode closure)   workerFunc(j) ; … ; release()
@@ -15,6 +17,15 @@
   Queues, job status words, the signal channel and the pool are NOT part of this model (they are
   the environment: a dispatcher may give up its slot at any time — `relD` — which is what happens
   when next/dequeue/claim fails).
+
+  Dispatcher phases: idle → (CAS ok: `tk g` := the value taken) reserved → (status re-check `ldStatusD`:
+  quiet → mustRelease | otherwise → checked) → (limit re-check `ldConcR`: `tk g` > limit → mustRelease |
+  otherwise → holding).  A dispatcher in phase `checked` has passed the status re-check and will not
+  look at the status again: only the limit can still send it back.  It is therefore counted in `nHold`
+  together with the `holding` ones (`nHold` = dispatchers past the status re-check), not in `nRes`:
+  `Quiet` (nHold = 0 …) and the budget after a plain Pause (`nHold + handed`) have to cover it, because
+  it may still hand over a job although the status has meanwhile become paused.  A failed limit
+  re-check moves it back from `nHold` to `nRes`.
 
   The counters `nRes … nDone` are ghost bookkeeping. Guards check BOTH the per-goroutine phase and
   the counter (`> 0` before every decrement) so that no counting lemma over goroutines is needed:
@@ -31,7 +42,7 @@ abbrev paused : Nat := 2
 abbrev stopped : Nat := 3
 
 /-- dispatcher-side phase of a goroutine inside processNextJob -/
-inductive DPh | idle | reserved | mustRelease | holding
+inductive DPh | idle | reserved | checked | mustRelease | holding
   deriving DecidableEq, Repr, Inhabited
 
 /-- runner-side phase of a pool goroutine -/
@@ -56,6 +67,7 @@ inductive Ev where
   | ldConcD (g v : Nat)                -- conc.Load()
   | casCur (g old new : Nat) (ok : Bool)
   | ldStatusD (g v : Nat)              -- status re-check after the CAS
+  | ldConcR (g v : Nat)                -- limit re-check after the status re-check: taken > conc.Load()
   | relD (g res : Nat)                 -- release() by a dispatcher that holds a slot
   | send (g : Nat)                     -- Node.Send(job): the slot goes with the job
   -- runner
@@ -85,9 +97,10 @@ structure State where
   ph : Nat → DPh := fun _ => .idle
   lc : Nat → Option Nat := fun _ => none     -- value of cur loaded by reserve()
   lcc : Nat → Option Nat := fun _ => none    -- value of conc loaded by reserve()
+  tk : Nat → Nat := fun _ => 0               -- value taken by g's last successful CAS (`taken` in reserve())
   rph : Nat → RPh := fun _ => .idle
   nRes : Nat := 0                    -- dispatchers in phase reserved / mustRelease
-  nHold : Nat := 0                   -- dispatchers in phase holding
+  nHold : Nat := 0                   -- dispatchers in phase checked / holding (past the status re-check)
   handed : Nat := 0                  -- jobs sent to a node, worker function not yet entered
   nExec : Nat := 0
   nDone : Nat := 0
@@ -138,7 +151,7 @@ def step (s : State) : Ev → Except String State
       else if !(c < cc) then .error s!"reserve: CAS although cur {c} >= conc {cc}"
       else if ok != (s.cur == old) then .error s!"reserve: CAS result {ok} but cur={s.cur}"
       else if ok then
-        .ok { s with cur := new, ph := upd s.ph g .reserved, nRes := s.nRes + 1,
+        .ok { s with cur := new, ph := upd s.ph g .reserved, tk := upd s.tk g new, nRes := s.nRes + 1,
                      lc := upd s.lc g none, lcc := upd s.lcc g none }
       else .ok { s with lc := upd s.lc g none, lcc := upd s.lcc g none }
     | _, _ => .error "reserve: CAS without loading cur and conc first"
@@ -147,7 +160,13 @@ def step (s : State) : Ev → Except String State
     else if v != s.ws then .error s!"reserve: loaded status={v}, model has {s.ws}"
     else if s.nRes == 0 then .error "ghost counter nRes is 0"
     else if isQuietStatus v then .ok { s with ph := upd s.ph g .mustRelease }
-    else .ok { s with ph := upd s.ph g .holding, nRes := s.nRes - 1, nHold := s.nHold + 1 }
+    else .ok { s with ph := upd s.ph g .checked, nRes := s.nRes - 1, nHold := s.nHold + 1 }
+  | .ldConcR g v =>
+    if s.ph g != .checked then .error "reserve: limit re-check without a passed status re-check"
+    else if v != s.conc then .error s!"reserve: re-loaded conc={v}, model has {s.conc}"
+    else if s.nHold == 0 then .error "ghost counter nHold is 0"
+    else if s.tk g > v then .ok { s with ph := upd s.ph g .mustRelease, nHold := s.nHold - 1, nRes := s.nRes + 1 }
+    else .ok { s with ph := upd s.ph g .holding }
   | .relD g res =>
     if s.cur == 0 then .error "release: cur is 0"
     else if res != s.cur - 1 then .error s!"release: result {res}, model has {s.cur - 1}"
@@ -234,7 +253,8 @@ def step (s : State) : Ev → Except String State
         if !(s.checked g || s.ls g == some stopped) then .error "barrier returned nil without its condition having been met"
         else .ok { s' with frozen := !(s.dirty g) }
       else if a == .pause && ok && !(s.dirty g) && s.budget.isNone && isQuietStatus s.ws then
-        -- plain Pause returned: only jobs already past reserve() (holding a slot or handed to a node) may still start
+        -- plain Pause returned: only jobs already past the status re-check of reserve() (limit re-check pending,
+        -- holding a slot, or handed to a node) may still start
         .ok { s' with budget := some (s.nHold + s.handed) }
       else .ok s'
 
